@@ -1,5 +1,5 @@
 (* The table-driven key family (keys = ids of Python ==/hash classes, tables read from the
-   live inspection.unwrap / refs.forwardref / isinstance(_, ForwardRef) on every run), and
+   live inspection.unwrap / refs.forwardref / isinstance(_, ForwardRef) / refs.evaluate on every run), and
    the boolean comparisons used by the correspondence runs (val := nat).
    Definitions only. *)
 From Coq Require Import List Bool Arith PeanoNat NArith.
@@ -7,12 +7,17 @@ Import ListNotations.
 Require Import TL.Model.Ctx.
 
 (* ---------------- keys from tables ---------------- *)
-Record tabs := { t_unwrap : list nat; t_fref : list nat; t_isref : list bool }.
+(* t_names: per id, the id of the key object the reference evaluates to (refs.evaluate(r) IS that
+   object); None when the evaluation raises, when the result is no key of the family, and for
+   keys that are not references *)
+Record tabs := { t_unwrap : list nat; t_fref : list nat; t_isref : list bool; t_names : list (option nat) }.
 
 (* ids outside the tables: inert forward references (never produced by the harness) *)
 Definition tab_unwrap (T : tabs) (k : nat) : nat := nth k (t_unwrap T) k.
 Definition tab_fref (T : tabs) (k : nat) : nat := nth k (t_fref T) k.
 Definition tab_isref (T : tabs) (k : nat) : bool := nth k (t_isref T) true.
+Definition tab_names (T : tabs) (r k : nat) : bool :=
+  match nth r (t_names T) None with Some x => Nat.eqb x k | None => false end.
 
 (* the computable check that a table satisfies key_laws (sound: CtxLemmas.tabs_ok_sound) *)
 Definition tabs_ok (T : tabs) : bool :=
@@ -32,15 +37,34 @@ Definition tabs_refs_fixed (T : tabs) : bool :=
 Definition tabs_reach (T : tabs) (cat : list (nat * nat)) : bool :=
   forallb (fun p => negb (tab_isref T (fst p)) && Nat.eqb (tab_unwrap T (fst p)) (snd p)) cat.
 
+(* the catalogue obligation for "a forward reference naming it": for every named key the harness
+   lists (classes, NewTypes, aliases -- not Final[..] / ClassVar[..], which have no name) the
+   reference refs.forwardref builds for it is a reference and the live refs.evaluate sends it back
+   to the key *)
+Definition tabs_fref_names (T : tabs) (cat : list nat) : bool :=
+  forallb (fun k => negb (tab_isref T k) && tab_isref T (tab_fref T k) && tab_names T (tab_fref T k) k) cat.
+
+(* the catalogue of foreign references: (reference written in a module that merely imports the
+   name, key it names): a reference, different from the canonical one, evaluating to the key *)
+Definition tabs_foreign (T : tabs) (cat : list (nat * nat)) : bool :=
+  forallb (fun p => tab_isref T (fst p) && negb (tab_isref T (snd p)) &&
+                    negb (Nat.eqb (fst p) (tab_fref T (snd p))) &&
+                    negb (Nat.eqb (fst p) (tab_unwrap T (snd p))) &&
+                    tab_names T (fst p) (snd p)) cat.
+
+(* references that cannot be evaluated name nothing *)
+Definition tabs_nameless (T : tabs) (cat : list nat) : bool :=
+  forallb (fun r => tab_isref T r && match nth r (t_names T) None with None => true | Some _ => false end) cat.
+
 Definition kop := op nat nat.
 Definition kout := out nat.
 
 Definition t_run (T : tabs) (fuel : nat) (ops : list kop) : list kout :=
-  run nat nat Nat.eqb (tab_isref T) (tab_unwrap T) (tab_fref T) fuel [] ops.
+  run nat nat Nat.eqb (tab_isref T) (tab_unwrap T) (tab_fref T) (tab_names T) fuel [] ops.
 Definition t_spec_run (T : tabs) (ops : list kop) : list kout :=
-  spec_run nat nat Nat.eqb (tab_isref T) (tab_unwrap T) (tab_fref T) [] ops.
+  spec_run nat nat Nat.eqb (tab_isref T) (tab_unwrap T) (tab_fref T) (tab_names T) [] ops.
 Definition t_ops_ok (T : tabs) (ops : list kop) : bool :=
-  ops_ok nat nat Nat.eqb (tab_isref T) (tab_unwrap T) (tab_fref T) [] ops.
+  ops_ok nat nat Nat.eqb (tab_isref T) (tab_unwrap T) (tab_fref T) (tab_names T) [] ops.
 
 (* ---------------- comparison with observations ---------------- *)
 (* ONoFuel / OOther agree with nothing, not even themselves: a model run that exhausts its
@@ -77,7 +101,7 @@ Inductive tr := T (o : kop) (obs : kout) (kids : list tr).
 Fixpoint walk (Tb : tabs) (c : st nat nat) (t : tr) (i : N) : N * list N :=
   match t with
   | T o obs kids =>
-    let (x, c') := step nat nat Nat.eqb (tab_isref Tb) (tab_unwrap Tb) (tab_fref Tb) model_fuel c o in
+    let (x, c') := step nat nat Nat.eqb (tab_isref Tb) (tab_unwrap Tb) (tab_fref Tb) (tab_names Tb) model_fuel c o in
     let bad := if out_eqb x obs then [] else [i] in
     let fix go (ks : list tr) (j : N) : N * list N :=
       match ks with
